@@ -195,7 +195,7 @@ class Session:
         self._texts = texts
 
     # ---- verdict ----
-    def finish(self, checker_cmd, level='proof', trusted_base=None, samples=None, extra=None):
+    def finish(self, checker_cmd, level='proof', trusted_base=None, samples=None, extra=None, skip_ledger=False):
         known = load_known()
         failures, known_hits, undecided = [], [], []
         nob = ndis = 0
@@ -227,7 +227,7 @@ class Session:
             failures.append(ob)
         if nob == 0:
             raise CheckerError('no obligations generated for %s' % self.prop)
-        ledger_missing = check_ledger(self.prop, self.obs)
+        ledger_missing = [] if skip_ledger else check_ledger(self.prop, self.obs)
         os.makedirs(os.path.join(ROOT, 'replays'), exist_ok=True)
         lines = []
         nviol = 0
